@@ -24,6 +24,7 @@ META = {
     "encoded": ["csr.event.EventMonitor.__init__", "csr.event.EventMonitor.elaborate", "event.Monitor.elaborate",
                 "csr.bus.Multiplexer.elaborate", "csr.reg.Register.elaborate", "csr.bus.Decoder.add/elaborate",
                 "amaranth.lib.wiring.connect (attachment)"],
+    "also": '1-3 bit wide buses with 3-7 events (many-chunk, padded, non-power-of-two registers) incl. a reset-rooted write-enable / read-enable / read-pending window; second pending read issued in the clear cycle; register capacity obligation',
     "bounds": "0,1,3,8,9,17 events at data width 8, 0,5,16,17 at 16 (thorough adds 2,7,16,24 / 31,32,33); alignment "
               "0-2; seeded trigger-mode mixes; three attachments; windows: enable write + read-back, enable write + "
               "pending read + line, pending read / write-one-to-clear / read with source inputs free in every cycle "
